@@ -43,6 +43,17 @@ func c10() int {
 			}
 		}
 	}
+	// longer lists (3..6 postings): a chain in which every posting spends what the previous one brought, and a fan of
+	// pairwise distinct postings - the reverse of either is only right if every position is mirrored
+	names := []string{"world", "a", "b", "c", "d", "e", "f"}
+	for n := 3; n <= 6; n++ {
+		var chain, fan ledger.Postings
+		for i := 0; i < n; i++ {
+			chain = append(chain, ledger.NewPosting(names[i], names[i+1], "X", big.NewInt(5)))
+			fan = append(fan, ledger.NewPosting("world", names[1+i%3], "X", big.NewInt(int64(i+1))))
+		}
+		lists = append(lists, chain, fan)
+	}
 	// what happens between the original and its revert
 	laters := []struct {
 		name string
@@ -97,8 +108,7 @@ func c10() int {
 							}
 							return sim[acc]
 						}
-						inv := append(ledger.Postings{}, orig...)
-						inv.Reverse()
+						inv := inversePostings(orig) // written out here: the oracle must not share code with the revert path
 						overdraws := false
 						for _, p := range inv {
 							if p.Source != "world" {
@@ -167,9 +177,18 @@ func c10() int {
 		"traces_validated_against_impl": int(states),
 		"samples":                       samples.Got,
 		"exhaustive":                    true,
-		"rule":                          fmt.Sprintf("sequential part: every committed transaction shape (posting lists of length 1..2 [3 in thorough] over {a,b,world} x amounts) x starting balances x 5 later histories x forced/unforced, reverted on the real Commander over memstore, then reverted again; states = (original, history) pairs reached, transitions = engine operations; %d reverts accepted, %d refused", reverted, refused),
+		"rule":                          fmt.Sprintf("sequential part: every committed transaction shape (posting lists of length 1..2 [3 in thorough] over {a,b,world} x amounts, plus chains and fans of 3..6 postings) x starting balances x 5 later histories x forced/unforced, reverted on the real Commander over memstore, then reverted again; states = (original, history) pairs reached, transitions = engine operations; %d reverts accepted, %d refused", reverted, refused),
 		"reverted":                      int(reverted),
 		"refused":                       int(refused),
 	}
 	return rep.Finish(cov)
+}
+
+// inversePostings: the postings in reverse order, each with source and destination exchanged.
+func inversePostings(ps ledger.Postings) ledger.Postings {
+	out := make(ledger.Postings, 0, len(ps))
+	for i := len(ps) - 1; i >= 0; i-- {
+		out = append(out, ledger.Posting{Source: ps[i].Destination, Destination: ps[i].Source, Asset: ps[i].Asset, Amount: ps[i].Amount})
+	}
+	return out
 }
